@@ -10,8 +10,9 @@
 (* untilCancelled) or none; and observation lines, which must hold of the   *)
 (* model state reached: `ret` (the call returned: which answer; contexts of *)
 (* the members whose answer main received; the winner's reader not closed), *)
-(* `closed` (after the caller's Close: reader closed once, context          *)
-(* cancelled), `final` (at quiescence: every reader, every context, the     *)
+(* `closed` (after the caller's Close: reader closed once, the reader's own  *)
+(* Close error - if scripted - passed through, context cancelled either way),*)
+(* `final` (at quiescence: every reader, every context, the     *)
 (* number of goroutines still inside ociunify).  Go's select may take any   *)
 (* ready case, so may the model: the run is accepted iff SOME behaviour of  *)
 (* OciUnifyConc with this order of environment actions shows exactly these  *)
@@ -29,6 +30,7 @@ TInit == Init /\ l = 2
 
 ResetStep(e) ==
   /\ out' = Fn(e.out) /\ mode' = Fn(e.mode) /\ style' = e.style
+  /\ closeErr' = Fn(e.closeerr) /\ closeRet' = "-"
   /\ parentCancelled' = FALSE
   /\ ctxCancelled' = [q \in M |-> FALSE]
   /\ doneClosed' = FALSE
@@ -72,9 +74,13 @@ RetObs(e) ==
   /\ \A k \in M : taken[k] => (e.ctxdone[k + 1] = CtxDone(k))
   \* the reader handed to the caller has not been closed by anybody else
   /\ (Winner # -1 /\ style = "reader") => e.closes[Winner + 1] = B2I(closed[Winner])
-\* right after the caller's Close
+\* right after the caller's Close: the member reader was closed once; its error, if it gave
+\* one, is what the caller got (errors.Is), no error otherwise; and whatever Close returned,
+\* the context given to the chosen member is cancelled now
 ClosedObs(e) ==
-  /\ readerClosed /\ ~e.closeerr
+  /\ readerClosed
+  /\ e.closeerr = (closeRet = "err")
+  /\ e.closeerr => e.closeerrfrom = Winner
   /\ e.closes[Winner + 1] = 1 /\ closed[Winner]
   /\ e.ctxdone[Winner + 1] = CtxDone(Winner)
 \* at quiescence: nothing internal is left to do, and everything observable agrees
